@@ -91,6 +91,10 @@ def registry():
         for v in UNS:
             R.append((f"from_int_{u}_{v}", "from_int", inc("enum/from_int"), f"fcppt::enum_::from_int<verif_enum_{u}>({CNAME[v]}{{}})", [f"enum:{u}", v, "void"]))
     # ---- second generation (ext/C06): everything below is additive
+    # bool is an integral type too: destination bool (result `optional<bool>`)
+    for s in ALL:
+        R.append((f"truncation_check_b_{s}", "truncation_check", inc("cast/truncation_check"),
+                  f"fcppt::cast::truncation_check<bool>({CNAME[s]}{{}})", ["bool", s, "void"]))
     # enums whose underlying type is signed (the default `int`, `signed char`): the size type is the unsigned counterpart
     for u in ["i8", "i32"]:
         for v in UNS:
@@ -1021,6 +1025,8 @@ class Fn:
         if name in ("int_to_enum", "enum_to_int", "enum_to_underlying") and len(args) == 1:
             v = self.expr(args[0], env, out)
             return f"(CInt.conv {ity(rt)} {v})"      # int_to_enum: static_cast to an enum with a fixed underlying type
+        if name in ("max", "min") and not args and rt == "bool":
+            return "true" if name == "max" else "false"       # numeric_limits<bool>
         if name == "max" and not args:
             return f"({ity(rt)}).hi"
         if name == "min" and not args:
@@ -1149,7 +1155,7 @@ def table(done, em):
     rows = {0: [], 1: [], 2: [], 3: [], 4: []}
     for n in done:
         k, rt = arity(n)
-        show = {"Int": "showInt", "Bool": "showBool", "(Option Int)": "showOpt"}[rt]
+        show = {"Int": "showInt", "Bool": "showBool", "(Option Int)": "showOpt", "(Option Bool)": "showOptB"}[rt]
         args = " ".join("abcd"[:k])
         if k == 0:
             rows[0].append(f'  ("{n}", {show} {n})')
@@ -1162,6 +1168,7 @@ def showM {α} (f : α → String) : M α → String
 def showInt : M Int → String := showM toString
 def showBool : M Bool → String := showM (fun b => if b then "1" else "0")
 def showOpt : M (Option Int) → String := showM (fun o => match o with | none => "none" | some v => "some " ++ toString v)
+def showOptB : M (Option Bool) → String := showM (fun o => match o with | none => "none" | some v => if v then "some 1" else "some 0")
 
 """
     out += "def table1 : List (String × (Int → String)) := [\n" + ",\n".join(rows[1]) + "]\n\n"
